@@ -74,6 +74,8 @@ class Unit:
                 break
         for fs in specs:
             fl = self.lowered[fs['cname']]
+            if 'nloops' not in fs and 'loops' not in fs and fs.get('ensures') is None:
+                continue    # body used in bounded runs only: no loop contracts are keyed to it
             want = fs.get('nloops', len(fs.get('loops', {})))
             if fl.nloops != want:
                 raise ExtractionBreak('%s: %d loops in the source, unit expects %d' % (fs['cname'], fl.nloops, want))
@@ -127,9 +129,9 @@ class Unit:
             out.append(cxx2c.struct_text(self.index, self.cfg, q, self.cfg.types.base(q)))
         return '\n'.join(out)
 
-    def prelude(self, mode):
+    def prelude(self, mode, defs=''):
         m = self.m
-        p = ['#define VERIF_MODE_%s 1' % mode.upper(), '#include "verif.h"']
+        p = [defs, '#define VERIF_MODE_%s 1' % mode.upper(), '#include "verif.h"']
         p.append(getattr(m, 'PRE_STRUCTS', ''))
         p.append(self.structs())
         p.append(getattr(m, 'PRELUDE', ''))
@@ -359,7 +361,7 @@ def build_contract_job(unit, fs):
     # input mirrors: named ghost copies of the scalar inputs, so that a counterexample trace shows the inputs
     mir_globals, mir_assign, mir_requires = [], [], []
     NONDET = {'double': 'nondet_double()', '_Bool': 'nondet_bool()', 'int': 'nondet_int()', 'unsigned long': 'nondet_ulong()',
-              'char': 'nondet_char()', 'unsigned int': '(unsigned int)nondet_ulong()', 'long': '(long)nondet_ulong()', 'float': '(float)nondet_double()'}
+              'char': 'nondet_char()', 'unsigned int': 'nondet_uint()', 'long': 'nondet_long()', 'float': '(float)nondet_double()'}
     decl_lines = []
     for p in plist:
         ty, nm = p.rsplit(None, 1)
@@ -440,7 +442,7 @@ def split_params(s):
 def build_lemma_job(unit, lm):
     """a harness (C text) over extracted functions: 'replace' lists callees used through their contracts,
     'bodies' lists extracted functions whose real body is included"""
-    parts = [unit.prelude(lm.get('mode', 'proof'))]
+    parts = [unit.prelude(lm.get('mode', 'proof'), lm.get('defs', ''))]
     rep = list(lm.get('replace', []))
     wrappers = {w.split('(')[0].split()[-1]: w for w in unit.make_wrappers()}
     for c in rep:
@@ -495,6 +497,12 @@ def classify(job, res, known):
         if p['status'] == 'SUCCESS':
             continue
         if 'must_fail' in p['desc']:
+            continue
+        if 'no body for callee' in p['desc'] or '.no-body.' in p['name']:
+            problems.append('%s: lowering/stub gap: %s' % (job.id, p['desc']))
+            continue
+        if 'verif_model_bound' in p['desc'] or 'unwinding assertion' in p['desc'] or '.unwind.' in p['name']:
+            problems.append('%s: bound of the bounded model too small: [%s] %s' % (job.id, p['name'], p['desc']))
             continue
         # failing obligation
         k = match_known(known, job, p)
